@@ -713,6 +713,10 @@ class tzfile(_tzinfo):
                 prevoffset = out.ttinfo_before.offset
             else:
                 prevoffset = out.trans_idx[i-1].offset
+            if i == len(out.trans_idx) - 1 and out.ttinfo_std is not None:
+                # From the last transition on, the standard type applies
+                # (see _get_ttinfo), whatever type the data names there.
+                offset = out.ttinfo_std.offset
             adjustment = min(prevoffset, offset)
 
             out.trans_list.append(out.trans_list_utc[i] + adjustment)
